@@ -75,6 +75,9 @@ func (fs *FileSystemDataStore) CreateFile(ctx context.Context) (io.WriteCloser, 
 		finalPath := filepath.Join(fs.rootDir, base+".dat")
 		tempPath := filepath.Join(fs.rootDir, base+".tmp")
 
+		if err := verifFS("reserve", finalPath); err != nil {
+			return nil, nil, err
+		}
 		reservation, err := os.OpenFile(finalPath, os.O_WRONLY|os.O_CREATE|os.O_EXCL, 0o600)
 		if err != nil {
 			if os.IsExist(err) {
@@ -89,7 +92,13 @@ func (fs *FileSystemDataStore) CreateFile(ctx context.Context) (io.WriteCloser, 
 		}
 
 		file, err := os.OpenFile(tempPath, os.O_WRONLY|os.O_CREATE|os.O_EXCL, 0o600)
+		if err == nil {
+			if err = verifFS("tmp.created", tempPath); err != nil {
+				file.Close()
+			}
+		}
 		if err != nil {
+			verifFS("reserve.release", finalPath)
 			// Release the reservation: this attempt owns no ".tmp" to ever
 			// rename over it.
 			os.Remove(finalPath)
@@ -133,10 +142,17 @@ type renameOnCloseFile struct {
 }
 
 func (f *renameOnCloseFile) Write(p []byte) (int, error) {
+	if err := verifFS("write", f.tempPath); err != nil {
+		return 0, err
+	}
 	return f.file.Write(p)
 }
 
 func (f *renameOnCloseFile) Close() error {
+	if err := verifFS("sync", f.tempPath); err != nil {
+		f.file.Close()
+		return err
+	}
 	if err := f.file.Sync(); err != nil {
 		f.file.Close()
 		return err
@@ -144,7 +160,13 @@ func (f *renameOnCloseFile) Close() error {
 	if err := f.file.Close(); err != nil {
 		return err
 	}
+	if err := verifFS("rename", f.finalPath); err != nil {
+		return err
+	}
 	if err := os.Rename(f.tempPath, f.finalPath); err != nil {
+		return err
+	}
+	if err := verifFS("dirsync", f.finalPath); err != nil {
 		return err
 	}
 	// fsync the directory so the rename itself survives power loss: once an
@@ -153,6 +175,7 @@ func (f *renameOnCloseFile) Close() error {
 		return err
 	}
 	f.published = true
+	verifFS("published", f.finalPath)
 	return nil
 }
 
@@ -168,12 +191,15 @@ func (f *renameOnCloseFile) Abort() error {
 	// no information here.
 	f.file.Close()
 	var errs []error
+	verifFS("abort.rm_tmp", f.tempPath)
 	if err := os.Remove(f.tempPath); err != nil && !os.IsNotExist(err) {
 		errs = append(errs, err)
 	}
+	verifFS("abort.rm_final", f.finalPath)
 	if err := os.Remove(f.finalPath); err != nil && !os.IsNotExist(err) {
 		errs = append(errs, err)
 	}
+	verifFS("abort.done", f.finalPath)
 	return errors.Join(errs...)
 }
 
@@ -199,15 +225,18 @@ func (fs *FileSystemDataStore) TombstoneFile(ctx context.Context, filePointerByt
 	finalPath := string(filePointerBytes)
 
 	var errs []error
+	verifFS("tomb.rm_final", finalPath)
 	if err := os.Remove(finalPath); err != nil && !os.IsNotExist(err) {
 		errs = append(errs, err)
 	}
 	if strings.HasSuffix(finalPath, ".dat") {
 		tempPath := strings.TrimSuffix(finalPath, ".dat") + ".tmp"
+		verifFS("tomb.rm_tmp", tempPath)
 		if err := os.Remove(tempPath); err != nil && !os.IsNotExist(err) {
 			errs = append(errs, err)
 		}
 	}
+	verifFS("tomb.done", finalPath)
 	return errors.Join(errs...)
 }
 
@@ -282,8 +311,10 @@ func (fs *FileSystemDataStore) GetMaybeFilesForQuery(ctx context.Context, query 
 func (fs *FileSystemDataStore) Update(ctx context.Context, writes []WriteOperation, deletes []DeleteOperation) error {
 	// writes are no-op, it's stored in the files
 	for _, delete := range deletes {
+		verifFS("update.remove", string(delete.FilePointerBytes))
 		os.Remove(string(delete.FilePointerBytes))
 	}
+	verifFS("update.done", fs.rootDir)
 	return nil
 }
 
